@@ -29,6 +29,12 @@ func execCase(c *wire.Case) (res *wire.Result) {
 			res.Panic = panicInfo(r)
 		}
 	}()
+	for _, ps := range c.Prelude {
+		func() {
+			defer func() { recover() }() // whatever a prelude compile does is judged by the checks that own it
+			libvore.Compile(string(ps))
+		}()
+	}
 	switch c.Op {
 	case "compile":
 		_, cr := doCompile(c.Src, c)
@@ -612,6 +618,16 @@ func doCall(c *wire.Case, call *wire.Call, slots []*progSlot, shared bool) {
 		}
 		ms := v.Run(string(c.Texts[call.Text]))
 		call.Digest = "m:" + digestMatches(ms)
+	case "run+json":
+		// run the shared program and render the result list both ways
+		v := slots[call.Prog].v
+		if v == nil {
+			call.Err = "not compiled"
+			call.Digest = "err:nc"
+			return
+		}
+		ms := v.Run(string(c.Texts[call.Text]))
+		call.Digest = "m:" + digestMatches(ms) + " j:" + hashStr(ms.Json()) + " f:" + hashStr(ms.FormattedJson())
 	}
 }
 
